@@ -519,6 +519,20 @@ def rule_L6(ctx):
                     v = d[0].value if len(d) == 1 else v
                 resolved.append(" ".join(ast.unparse(v).split()))
         ok = sorted(resolved) == sorted([f"sanitize_container({zv})", "{k: container[k][" + iv + "] for k in zone_aux_attrib_names}"])
+        if not ok and f"sanitize_container({zv})" in resolved and len(resolved) == 2:
+            # the auxiliary table written out: {'a': container['a'][i], 'b': container['b'][i], ...}, for exactly the names whose
+            # list lengths were checked against the number of zones
+            other = [r for r in resolved if r != f"sanitize_container({zv})"][0]
+            try:
+                dn = ast.parse(other, mode="eval").body
+            except SyntaxError:
+                dn = None
+            if isinstance(dn, ast.Dict) and dn.keys and all(isinstance(k_, ast.Constant) and isinstance(k_.value, str) for k_ in dn.keys):
+                ok = all(norm(v_) == f"container[{k_.value!r}][{iv}]" for k_, v_ in zip(dn.keys, dn.values))
+                checked = [d_ for d_ in own_nodes(ka) if isinstance(d_, ast.Dict) and d_.keys and all(isinstance(k_, ast.Constant) for k_ in d_.keys)
+                           and all(isinstance(v_, ast.Compare) and "len(container[" in norm(v_) for v_ in d_.values)]
+                ok = ok and len(checked) == 1 and [k_.value for k_ in checked[0].keys] == [k_.value for k_ in dn.keys] \
+                    and all(norm(v_.left if "len(" in norm(v_.left) else v_.comparators[0]) == f"len(container[{k_.value!r}])" for k_, v_ in zip(checked[0].keys, checked[0].values))
         det = "" if ok else f"zone is built from {sorted(resolved)}"
     ctx.ob("L6", vz[0] if vz else ka, "zone i is built from its own record plus the per-zone auxiliary values [i], enumerating the stored zones in order", ok, det, inst="VelocityZone")
     try:
